@@ -504,6 +504,9 @@ func HS(parts ...string) uint64 {
 	return h
 }
 
+// StopAll makes every Par loop stop handing out work (set after repeated non-terminating cases).
+var StopAll atomic.Bool
+
 // Par runs fn(i) for i in [0,n) on all CPUs (deterministic partition by index).
 func Par(n int, fn func(i int)) {
 	w := runtime.GOMAXPROCS(0)
@@ -524,7 +527,7 @@ func Par(n int, fn func(i int)) {
 			defer wg.Done()
 			for {
 				i := int(next.Add(1) - 1)
-				if i >= n {
+				if i >= n || StopAll.Load() {
 					return
 				}
 				fn(i)
